@@ -22,6 +22,8 @@ val add : nat -> nat -> nat
 
 val sub : nat -> nat -> nat
 
+val last : 'a1 list -> 'a1 -> 'a1
+
 val rev : 'a1 list -> 'a1 list
 
 val concat : 'a1 list list -> 'a1 list
